@@ -331,6 +331,115 @@ void execute(const Program& g) {
 
 } // namespace
 
+// ---------------------------------------------------------------------------------------------
+// Free-form WAITER programs (own targets thread_pool_waiters / thread_pool_waiters_real): the six templates above
+// have at most one thread in each kind of wait. Here 2..4 client threads (main included) each enqueue their own job
+// trees and then wait, so that SEVERAL threads sit in loop_until_terminate() or in loop_until_empty() at the same
+// time while jobs run, are queued, enqueue further jobs and the pool is terminated by a job or by one of the
+// clients. Every waiter must return (the scheduler reports the others as deadlock) and checks its post-condition.
+struct WThread {
+    std::vector<int> roots;
+    int wait_kind = 0;           // 0 none, 1 loop_until_empty (not closed), 2 loop_until_terminate
+    bool terminator = false;     // mode 1: calls terminate() after its enqueues (and optional drain)
+    bool drain_first = false;    // mode 1: the terminator calls loop_until_empty() before terminate()
+    int delay = 0;               // scheduling points before the wait
+};
+struct WProgram {
+    int P = 1, mode = 0; // 0 = a job terminates, 1 = a client terminates, 2 = nobody terminates: concurrent loop_until_empty
+    bool use_init = false, spurious = false, nested = false;
+    std::vector<WThread> th; // th[0] = main
+    int term_waiters = 0, empty_waiters = 0;
+};
+static const char* wmodes[] = {"job-terminates", "client-terminates", "concurrent-empty-waiters"};
+
+WProgram gen_wprogram(pbt::Source& src) {
+    WProgram g;
+    g.mode = (int)src.weighted({3, 3, 2});
+    g.P = (int)src.range(1, 4);
+    g.use_init = src.chance(48);
+    g.spurious = src.chance(40);
+    int nt = (int)src.range(2, 4);
+    g.th.resize((size_t)nt);
+    bool used_terminate = false;
+    int terminator = g.mode == 1 ? (int)src.range(0, nt - 1) : -1;
+    for (int t = 0; t < nt; ++t) {
+        WThread& w = g.th[(size_t)t];
+        int lo = (t == 0 || t == terminator) ? 1 : 0;
+        w.roots = gen_forest(src, (int)src.range(lo, 3), g.mode == 0, used_terminate, g.nested);
+        w.delay = (int)src.range(0, 2);
+        if (g.mode == 2) w.wait_kind = (t == 0 || src.chance(200)) ? 1 : 0;
+        else w.wait_kind = (t == 0 || src.chance(200)) ? 2 : 0;
+        if (t == terminator) {
+            w.terminator = true;
+            w.drain_first = src.chance(96);
+            if (t != 0 && src.chance(128)) w.wait_kind = 0; // a terminator that does not wait itself
+        }
+        if (w.wait_kind == 2) g.term_waiters++;
+        if (w.wait_kind == 1) g.empty_waiters++;
+    }
+    if (g.mode == 0 && !used_terminate) { // some job must terminate the pool: the last root of the last non-empty forest
+        for (int t = nt - 1; t >= 0; --t)
+            if (!g.th[(size_t)t].roots.empty()) {
+                st.jobs[(size_t)g.th[(size_t)t].roots.back()].terminates = true;
+                break;
+            }
+    }
+    return g;
+}
+
+void describe(const WProgram& g) {
+    if (!pbt::verbose()) return;
+    PBT_LOG("waiters program: mode=" << wmodes[g.mode] << " workers=" << g.P << " init_thread=" << g.use_init << " spurious=" << g.spurious << " jobs=" << st.jobs.size() << "\n");
+    for (size_t t = 0; t < g.th.size(); ++t) {
+        const WThread& w = g.th[t];
+        PBT_LOG(" client" << t << (t == 0 ? "(main)" : "") << ": enqueue roots [");
+        for (int r : w.roots) PBT_LOG(r << " ");
+        PBT_LOG("]" << (w.terminator ? (w.drain_first ? "; loop_until_empty; terminate()" : "; terminate()") : "")
+                    << (w.wait_kind == 1 ? "; loop_until_empty" : w.wait_kind == 2 ? "; loop_until_terminate" : "") << "\n");
+    }
+    for (size_t j = 0; j < st.jobs.size(); ++j) {
+        PBT_LOG(" job" << j << ": children=[");
+        for (int c : st.jobs[j].children) PBT_LOG(c << " ");
+        PBT_LOG("] terminates=" << st.jobs[j].terminates << "\n");
+    }
+}
+
+void wexecute(const WProgram& g) {
+    {
+        tlx::ThreadPool pool((size_t)g.P, g.use_init ? tlx::ThreadPool::InitThread([](size_t) { st.init_calls++; }) : tlx::ThreadPool::InitThread());
+        st.pool = &pool;
+        auto client = [&g](size_t t) {
+            const WThread& w = g.th[t];
+            const std::string who = "client" + std::to_string(t);
+            for (int r : w.roots) enqueue_job(r);
+            if (w.terminator) {
+                if (w.drain_first) wait_empty_checked(false, who.c_str());
+                st.terminate_called = true;
+                st.pool->terminate();
+            }
+            for (int i = 0; i < w.delay; ++i) (void)st.dummy.load();
+            if (w.wait_kind == 1) wait_empty_checked(false, who.c_str());
+            else if (w.wait_kind == 2) {
+                wait_terminate_checked(who.c_str());
+                // terminated and no job running: nothing can be mid-flight now or later
+                for (size_t j = 0; j < st.jobs.size(); ++j)
+                    SCHED_CHECK(st.started[j] == st.finished[j], "C10/terminated-but-job-running",
+                                who << ": loop_until_terminate returned while job " << j << " is running");
+            }
+        };
+        std::vector<Thread> helpers;
+        for (size_t t = 1; t < g.th.size(); ++t) helpers.emplace_back([&client, t]() { client(t); });
+        client(0);
+        for (auto& h : helpers) h.join();
+        if (g.mode == 2) wait_empty_checked(true, "main(final)");
+        vsched::note("~ThreadPool");
+    }
+    vsched::note("");
+    st.pool = nullptr;
+    final_checks(/*all_must_have_run=*/g.mode == 2);
+    if (g.use_init) SCHED_CHECK(st.init_calls == g.P, "C10/init-thread", "init_thread ran " << st.init_calls << " times for " << g.P << " workers");
+}
+
 #ifdef C10_REAL_THREADS
 PBT_PROPERTY(thread_pool_real) {
     st.reset();
@@ -341,7 +450,35 @@ PBT_PROPERTY(thread_pool_real) {
     execute(g);
     if (g.P >= 2 && g.nested) pbt::nontrivial();
 }
+PBT_PROPERTY(thread_pool_waiters_real) {
+    st.reset();
+    WProgram g = gen_wprogram(src);
+    pbt::label(wmodes[g.mode]);
+    if (g.term_waiters >= 2) pbt::label("loop_until_terminate_waiters>=2");
+    if (g.empty_waiters >= 2) pbt::label("loop_until_empty_waiters>=2");
+    describe(g);
+    wexecute(g);
+    if (g.term_waiters >= 2 || g.empty_waiters >= 2) pbt::nontrivial();
+}
 #else
+PBT_PROPERTY(thread_pool_waiters) {
+    st.reset();
+    WProgram g = gen_wprogram(src);
+    pbt::label(wmodes[g.mode]);
+    if (g.term_waiters >= 2) pbt::label("loop_until_terminate_waiters>=2");
+    if (g.empty_waiters >= 2) pbt::label("loop_until_empty_waiters>=2");
+    if (g.nested) pbt::label("nested");
+    if (g.spurious) pbt::label("spurious_wakeups");
+    describe(g);
+    vsched::Options opt;
+    opt.spurious_wakeups = g.spurious;
+    vsched::Run run(src, opt);
+    wexecute(g);
+    auto& S = vsched::S();
+    if ((g.term_waiters >= 2 || g.empty_waiters >= 2) && S.preemptions >= 2) pbt::nontrivial();
+    PBT_LOG("steps=" << S.steps << " switches=" << S.switches << " preemptions=" << S.preemptions << "\n");
+}
+
 PBT_PROPERTY(thread_pool) {
     st.reset();
     Program g = gen_program(src);
